@@ -1795,7 +1795,7 @@ def cross_C19(lines, outs, models=None):
             continue
         if c.startswith(INTROSPECT):
             continue
-        if c.startswith("q eq "):
+        if c.startswith(("q eq ", "q ne ")):
             us = _units_of(c)
             if len(us) == 2 and us[0] != us[1]:
                 continue        # `==` on different units: ill-dimensioned, and documented to ignore units when unchecked
